@@ -2,7 +2,8 @@
 after every operation, then (optionally) elaborated and exported.
 
 job = dict(kinds=[0|n|-1|-2, ...] per instance: 0 = Instance, n >= 1 = InstanceArray of n, -1 = template Instance that is
-                                 never added to the module, -2 = the array `2 * template` made by ["toarray", t, k]
+                                 never added to the module, -2 = the array `2 * template` made by ["toarray", t, k],
+                                 -3 = InstanceBundle (h.Pair)
            ports=[name, ...]     the port-name alphabet (index = port id in the model)
            pool={id: [kind, recipe]}   connectables with an identity (built once, lazily, re-used)
            dicts={id: {member: recipe}} raw Python dicts (connect() wraps them into a new AnonymousBundle)
@@ -58,6 +59,11 @@ class World:
         for k, n in enumerate(job["kinds"]):
             if n == -2:                 # the array `2 * template` makes later ("toarray")
                 self.insts.append(None)
+                continue
+            if n == -3:                 # an InstanceBundle (books only: such histories are not exported)
+                inst = h.Pair(of=leaf, name=f"i{k}")
+                top.add(inst)
+                self.insts.append(inst)
                 continue
             if n == -1:                 # a template Instance: connected like any other, never added to the module
                 self.insts.append(h.Instance(of=leaf))
